@@ -2,7 +2,7 @@
 
 
 def extract(p: dict) -> None:
-    for modname in ("tcextract", "sshextract", "logextract", "quote_params", "ctxextract", "shellextract"):
+    for modname in ("tcextract", "sshextract", "logextract", "quote_params", "ctxextract", "shellextract", "boardextract"):
         try:
             mod = __import__(modname)
         except ImportError:
